@@ -112,6 +112,20 @@ def iupLoop (ax : Bool) : List Nat → List ZPt → Nat → List ZPt
 /-- `Ins_IUP` after the backward-compatibility test (`if ( exc->pts.n_contours == 0 ) return;`). -/
 def iup (ax : Bool) (pts : List ZPt) (ends : List Nat) : List ZPt := iupLoop ax ends pts 0
 
+/-! ### UTP, FLIPPT, FLIPRGON / FLIPRGOFF -/
+
+/-- `Ins_UTP`: `mask = 0xFF; if ( freeVector.x != 0 ) mask &= ~TOUCH_X; if ( freeVector.y != 0 ) mask &=
+~TOUCH_Y; tags[point] &= mask`. -/
+def utp (fv : Vec) (p : ZPt) : ZPt :=
+  { p with tx := if fv.x ≠ 0 then false else p.tx, ty := if fv.y ≠ 0 then false else p.ty }
+
+/-- `Ins_FLIPPT`, one point: `tags[point] ^= FT_CURVE_TAG_ON`. -/
+def flipPt (p : ZPt) : ZPt := { p with on := ¬ p.on }
+
+/-- `Ins_FLIPRGON` / `Ins_FLIPRGOFF`: `for ( I = L; I <= K; I++ ) tags[I] |= / &= ~ FT_CURVE_TAG_ON`. -/
+def flipRange (pts : List ZPt) (lo hi : Nat) (on : Bool) : List ZPt :=
+  (pts.zipIdx).map fun (p, i) => if lo ≤ i ∧ i ≤ hi then { p with on := on } else p
+
 /-! ### IP -/
 
 /-- `if ( org_dist ) { if ( old_range ) new_dist = FT_MulDiv( org_dist, cur_range, old_range ); else
